@@ -112,20 +112,22 @@ func (s *Server) Serve(ln net.Listener) error {
 	ok := !s.closed
 	if ok {
 		s.listeners[ln] = struct{}{}
+		// Register with the wait group while holding the mutex: Close must
+		// either see the server as not closed yet and wait for us, or make
+		// us return errClosed
+		s.listenerWaitGroup.Add(1)
 	}
 	s.mutex.Unlock()
 	if !ok {
 		return errClosed
 	}
+	defer s.listenerWaitGroup.Done()
 
 	defer func() {
 		s.mutex.Lock()
 		delete(s.listeners, ln)
 		s.mutex.Unlock()
 	}()
-
-	s.listenerWaitGroup.Add(1)
-	defer s.listenerWaitGroup.Done()
 
 	var delay time.Duration
 	for {
